@@ -143,7 +143,13 @@ fn cli_case(map: &[Option<usize>], cs: &CallSet, container: Container, what: &st
 fn eval_cli(map: &[Option<usize>], cs: &CallSet, rows: &[Vec<Cls>], container: Container, what: &str, scratch: &Scratch) -> Option<Viol> {
     let bytes = render(cs, container, &Layout::Single);
     let expect = ref_create(rows, map, None);
-    let o = run_sfs(&["create", "-s", &sample_arg(map)], Stdin::Bytes(&bytes), scratch);
+    let sa = sample_arg(map);
+    let mut args: Vec<&str> = vec!["create", "-s", &sa];
+    // "precision-<p>": an explicit --precision without projection must still print exact integers
+    if let Some(p) = what.strip_prefix("precision-") {
+        args.extend(["--precision", p]);
+    }
+    let o = run_sfs(&args, Stdin::Bytes(&bytes), scratch);
     match judge_stdout(&o, &expect.spectrum) {
         Ok(()) => None,
         Err(e) => {
@@ -194,6 +200,26 @@ fn decorate(cs: &CallSet, rows: &[Vec<Cls>], which: &str) -> (CallSet, Vec<Vec<C
                 rows.push(vec![Cls::Missing; s]);
             }
         }
+        "monomorphic-with-missing" => {
+            // ALT = '.' records can only carry REF alleles or missing calls: every such row
+            for (k, r) in all_rows(s, &[Cls::G0, Cls::Missing]).iter().enumerate() {
+                let gts: Vec<String> = r
+                    .iter()
+                    .enumerate()
+                    .map(|(j, c)| if *c == Cls::G0 { ["0/0", "0|0"][(j + k) % 2] } else { ["./.", ".|.", "./0", "0|."][(j + k) % 4] }.to_string())
+                    .collect();
+                cs.records.push(Record { chrom: 1, pos: 8000 + k, alts: vec![], gts, decorated: false });
+                rows.push(r.clone());
+            }
+        }
+        "symbolic-and-indel-alleles" => {
+            // REF/ALT spellings other than single bases do not change which allele index is ALT 1
+            for (k, r) in all_rows(s, &Cls::ALL).iter().enumerate() {
+                let gts: Vec<String> = r.iter().enumerate().map(|(j, c)| c.spell(j + k).to_string()).collect();
+                cs.records.push(Record { chrom: 1, pos: 9000 + k, alts: [vec!["<DEL>", "G", "T"], vec!["ACGT", "AC", "<*>"], vec!["*", "C", "G"]][k % 3].clone(), gts, decorated: k % 2 == 1 });
+                rows.push(r.clone());
+            }
+        }
         "all-phased" => {
             for r in cs.records.iter_mut() {
                 for g in r.gts.iter_mut() {
@@ -206,11 +232,11 @@ fn decorate(cs: &CallSet, rows: &[Vec<Cls>], which: &str) -> (CallSet, Vec<Vec<C
     (cs, rows)
 }
 
-const DECORATIONS: [&str; 6] = ["info-format-fields", "two-contigs", "monomorphic-records", "multi-alt-records", "all-missing-records", "all-phased"];
+const DECORATIONS: [&str; 8] = ["info-format-fields", "two-contigs", "monomorphic-records", "multi-alt-records", "all-missing-records", "all-phased", "monomorphic-with-missing", "symbolic-and-indel-alleles"];
 
 pub fn run(tier: Tier) -> i32 {
     let mut rep = Report::new("C01", tier, "exploration");
-    rep.rule = "genotype class per sample in {0,1,2 ALT, missing, multiallelic}; sample maps = every assignment of each sample to 'unselected' or population 0..3 (labels in first-use order). L1 (real site::Reader fed by an in-memory genotype source): every (map, row) single-record case, every 2-record sequence (S=3), all rows in one stream, unselected samples with ploidy errors; L2 (real binary): one-record VCFs, one VCF with every row, containers, six decorations. Oracle: reference create from the classes; stdout must be '#SHAPE=<..>' + exact integers. Non-trivial = a case with a counted and a skipped record, or >=2 populations of unequal size.".into();
+    rep.rule = "genotype class per sample in {0,1,2 ALT, missing, multiallelic}; sample maps = every assignment of each sample to 'unselected' or population 0..3 (labels in first-use order). L1 (real site::Reader fed by an in-memory genotype source): every (map, row) single-record case, every 2-record sequence (S=3), all rows in one stream, unselected samples with ploidy errors; L2 (real binary): one-record VCFs, one VCF with every row, containers, explicit --precision, eight decorations (extra INFO/FORMAT fields, two contigs, monomorphic records without and with missing calls, multi-ALT, all-missing, all-phased, symbolic / indel / '*' alleles). Oracle: reference create from the classes; stdout must be '#SHAPE=<..>' + exact integers. Non-trivial = a case with a counted and a skipped record, or >=2 populations of unequal size.".into();
 
     let s_max = tier.pick(4, 5);
     let mut jobs: Vec<(Vec<Option<usize>>, Vec<Vec<Cls>>)> = Vec::new();
@@ -307,6 +333,9 @@ pub fn run(tier: Tier) -> i32 {
         for c in Container::all() {
             cjobs.push((map.clone(), all.clone(), rows.clone(), c, "every-row".into()));
         }
+        for p in ["0", "1", "6", "17"] {
+            cjobs.push((map.clone(), all.clone(), rows.clone(), Container::Vcf, format!("precision-{p}")));
+        }
         for d in DECORATIONS {
             let (cs, r2) = decorate(&all, &rows, d);
             cjobs.push((map.clone(), cs.clone(), r2.clone(), Container::Vcf, d.to_string()));
@@ -331,7 +360,7 @@ pub fn run(tier: Tier) -> i32 {
         name: "cli: sfs create -s".into(),
         evaluations: cjobs.len() as u64,
         nontrivial: nt,
-        note: format!("S={s}: {} maps x ({} one-record VCFs + every-row call set in 4 containers + 6 decorations in vcf and bcf)", maps.len(), rows.len()),
+        note: format!("S={s}: {} maps x ({} one-record VCFs + every-row call set in 4 containers + explicit --precision 0/1/6/17 + 8 decorations in vcf and bcf)", maps.len(), rows.len()),
         exhaustive: true,
         extra: vec![],
     });
@@ -369,7 +398,12 @@ pub fn replay(case: &J) -> Option<Vec<String>> {
         "c01-cli" => {
             let scratch = Scratch::new("c01r");
             let vcf = case.get("vcf")?.as_str()?;
-            let o = run_sfs(&["create", "-s", case.get("samples")?.as_str()?], Stdin::Bytes(vcf.as_bytes()), &scratch);
+            let what = case.get("what").and_then(|w| w.as_str()).unwrap_or("").to_string();
+            let mut args: Vec<&str> = vec!["create", "-s", case.get("samples")?.as_str()?];
+            if let Some(p) = what.strip_prefix("precision-") {
+                args.extend(["--precision", p]);
+            }
+            let o = run_sfs(&args, Stdin::Bytes(vcf.as_bytes()), &scratch);
             println!("replay (vcf rendering of the case): {} stdout {:?} stderr {:?}", o.status_str(), o.stdout_str(), o.stderr_str());
             None
         }
